@@ -48,6 +48,7 @@ OPTION_SETS = {
     "revcomp": (False, ["-a", AD1, "--revcomp", "--times", "2", "-o", "out.fastq"]),
     "stats": (False, ["-q", "10,15", "-a", AD1, "--poly-a", "--max-n", "1", "--discard-casava", "-m", "5", "--trim-n",
                       "--length-tag", "len=", "-o", "out.fastq"]),
+    "dupnames": (False, ["-a", f"idx={AD1}", "-a", f"idx={AD2}", "-g", "idx=ACGTACGT;o=6", "-o", "out.fastq"]),
     "discard": (False, ["-b", AD1, "--discard-untrimmed", "--max-ee", "3", "-o", "out.fasta"]),
 }
 
